@@ -188,6 +188,51 @@ class DictIter(IterVal):
         return z3.Select(run.field('dict.n'), Value.a(self.ref))
 
 
+class GenIter(IterVal):
+    """Iteration over a generator object (ghost fields gen.items / gen.n / gen.pos / gen.exc): the k-th step of the
+    loop reads item pos0 + k; when the items are exhausted the generator raises its terminal exception, if any."""
+
+    def __init__(self, ref, pos0, run):
+        self.ref, self.pos0 = ref, pos0
+
+    def _n(self, run):
+        return z3.Select(run.field('gen.n'), Value.a(self.ref))
+
+    def has_next(self, run, k):
+        k = z3.IntVal(k) if isinstance(k, int) else k
+        return self.pos0 + k < self._n(run)
+
+    def item(self, run, k):
+        a = Value.a(self.ref)
+        v = z3.simplify(z3.Select(z3.Select(run.field('gen.items'), a), z3.simplify(self.pos0 + k)))
+        ety = run.iter_elem.get(z3.simplify(a).sexpr())
+        if ety:
+            run.assume_type(v, ety)
+        run.heap['gen.pos'] = z3.Store(run.field('gen.pos'), a, z3.simplify(self.pos0 + k + 1))
+        return v
+
+    def in_range(self, run, k):
+        return self.pos0 + k <= self._n(run)
+
+    def remaining(self, run, k):
+        return self._n(run) - self.pos0 - k
+
+    def finish(self, run, k):
+        a = Value.a(self.ref)
+        exc = z3.Select(run.field('gen.exc'), a)
+        if run.branch(exc == 0):
+            return
+        code = 1
+        for c, name in sorted(run.GEN_EXC.items()):
+            if c and run.feasible(exc == c):
+                if run.branch(exc == c):
+                    raise PyExc(name, 'generator raised when exhausted')
+        raise PathEnd()
+
+    def length(self, run):
+        return self._n(run) - self.pos0
+
+
 class CallsMixin:
     # ------------------------------------------------------------------ allocation
     def new_addr(self, cls):
@@ -544,7 +589,9 @@ class CallsMixin:
         if isinstance(obj, IterVal):
             raise OutOfSubset('attribute of iterator')
         obj = self.val(obj)
-        t = static_tag(obj)
+        t = static_tag(obj) or self.tagcache.get(obj.sexpr())
+        if t is None and name in STR_METHODS and name not in self.eng.field_types and ('attr:' + name) not in self.heap:
+            t = 'VStr' if self.spec_mode else None      # a str method name that is no attribute of any class
         if t is None:
             t = 'VRef' if self.spec_mode else self.tag(obj)
         if t == 'VStr':
@@ -658,7 +705,10 @@ class CallsMixin:
         raise PyExc('TypeError', 'not iterable: ' + self.snippet(node), implicit='type')
 
     def gen_iter(self, v, node):
-        raise OutOfSubset('generator iteration')
+        a = Value.a(v)
+        pos0 = z3.simplify(z3.Select(self.field('gen.pos'), a))
+        self.check_write(a, node)
+        return GenIter(v, pos0, self)
 
     def listcomp(self, node):
         if len(node.generators) != 1:
@@ -756,8 +806,26 @@ class CallsMixin:
                 env[n] = self.ev(d)
         return env
 
+    def call_generator(self, c, fv, args, kwargs, node):
+        a = self.new_addr('gen')
+        n = self.fresh('gen_n', I)
+        exc = self.fresh('gen_exc', I)
+        self.assume(n >= 0)
+        codes = [0] + [k for k, name in self.GEN_EXC.items() if k and any(cl.extra['exc'] == name for cl in c.of('raises'))]
+        self.assume(z3.Or([exc == k for k in codes]))
+        self.heap['gen.n'] = z3.Store(self.field('gen.n'), a, n)
+        self.heap['gen.pos'] = z3.Store(self.field('gen.pos'), a, z3.IntVal(0))
+        self.heap['gen.exc'] = z3.Store(self.field('gen.exc'), a, exc)
+        self.heap['gen.items'] = z3.Store(self.field('gen.items'), a, self.fresh('gen_items', ArrIV))
+        ys = [cl for cl in c.of('returns')]
+        for cl in c.of('yields_type'):
+            self.iter_elem[z3.simplify(a).sexpr()] = cl.extra['type']
+        return VRef(a)
+
     def call_func(self, fv, args, kwargs, node):
         c = self.eng.contracts.get(fv.key)
+        if c is not None and self.is_generator(fv.node) and self.inlining_key != fv.key:
+            return self.call_generator(c, fv, args, kwargs, node)
         if c is not None and not c.inline and not (self.inlining_key == fv.key):
             return self.call_contract(c, fv, args, kwargs, node)
         return self.inline_call(fv, args, kwargs, node)
@@ -1272,6 +1340,12 @@ class CallsMixin:
         j = self.as_int(self.ev(node.args[1]))
         return z3.Select(z3.Select(self.field('dict.keys'), Value.a(d)), j)
 
+    def sp_yielded_concat(self, node):
+        return VStr(self.yconcat)
+
+    def sp_yielded_count(self, node):
+        return VInt(self.ycount)
+
     def sp_inf(self, node):
         return VInf
 
@@ -1540,7 +1614,7 @@ class CallsMixin:
             return self.str_to_int(Value.s(x), node)
         raise PyExc('TypeError', 'int() of ' + t, implicit='type')
 
-    GEN_EXC = {0: 'StopIteration', 1: 'DecoderError'}
+    GEN_EXC = {0: 'StopIteration', 1: 'DecoderError', 2: 'ValueError'}
 
     def bi_next(self, b, args, kwargs, node):
         it = self.val(args[0])
@@ -1826,6 +1900,12 @@ class CallsMixin:
         if not parts:
             return VStr('')
         return VStr(z3.simplify(z3.Concat(parts) if len(parts) > 1 else parts[0]))
+
+    def bi_str_count(self, b, args, kwargs, node):
+        f = z3.Function('str_count', S, S, I)
+        r = f(Value.s(b.self_val), Value.s(self.val(args[0])))
+        self.assume(r >= 0)
+        return VInt(r)
 
     def bi_str_startswith(self, b, args, kwargs, node):
         return VBool(z3.PrefixOf(Value.s(self.val(args[0])), Value.s(b.self_val)))
